@@ -570,6 +570,82 @@ theorem epsilon_local (rs rs' : List (ℕ × ℚ)) (c : ℕ)
   unfold epsilon
   rw [(contest_filter c rs).1, (contest_filter c rs).2, (contest_filter c rs').1, (contest_filter c rs').2, h]
 
+/-- the model's threshold, reset value and subtraction are the source's (`_estimate_epsilon` / `_estimate_delta`, regenerated) -/
+theorem bridge_epsilon (rs : List (ℕ × ℚ)) (c : ℕ) :
+    epsilon rs c = (if Gen.C06.epsilon_reset_mask (contestCount c rs : ℚ) then Gen.C06.epsilon_reset_value
+                    else contestSum c rs / (contestCount c rs : ℚ)) ∧
+    ∀ p ∈ rs, Gen.C06.delta_of p.2 (epsilon rs p.1) = p.2 - epsilon rs p.1 := by
+  constructor
+  · unfold epsilon Gen.C06.epsilon_reset_mask Gen.C06.epsilon_reset_value
+    by_cases h : contestCount c rs < 2
+    · have : ((contestCount c rs : ℕ) : ℚ) < 2 := by exact_mod_cast h
+      simp [h, this]
+    · have : ¬ ((contestCount c rs : ℕ) : ℚ) < 2 := by
+        intro hh; apply h; exact_mod_cast hh
+      simp [h, this]
+  · intro p _; rfl
+
+/-! ### the stratum distributions interpolate inside the range of the fitted quantiles (`np.interp` as used by `ppf_creator`) -/
+
+theorem interpAux_mem (x right a b : ℚ) (pts : List (ℚ × ℚ)) (h : ∀ p ∈ pts, a ≤ p.2 ∧ p.2 ≤ b) (hr : a ≤ right ∧ right ≤ b) :
+    a ≤ interpAux x right pts ∧ interpAux x right pts ≤ b := by
+  induction pts with
+  | nil => simpa [interpAux] using hr
+  | cons p rest ih =>
+    obtain ⟨x0, f0⟩ := p
+    have h0 := h (x0, f0) (by simp)
+    unfold interpAux
+    by_cases hx : x ≤ x0
+    · simpa [hx] using h0
+    · simp only [hx, if_false]
+      cases rest with
+      | nil => simpa using hr
+      | cons q t =>
+        obtain ⟨x1, f1⟩ := q
+        have h1 := h (x1, f1) (by simp)
+        by_cases hx1 : x < x1
+        · simp only [hx1, if_true]
+          have hx0 : x0 < x := not_le.mp hx
+          have hd : 0 < x1 - x0 := by linarith
+          have ht0 : 0 ≤ (x - x0) / (x1 - x0) := div_nonneg (by linarith) hd.le
+          have ht1 : (x - x0) / (x1 - x0) ≤ 1 := by rw [div_le_one hd]; linarith
+          have e : f0 + (f1 - f0) * (x - x0) / (x1 - x0) = f0 + (f1 - f0) * ((x - x0) / (x1 - x0)) := by ring
+          rw [e]
+          set t := (x - x0) / (x1 - x0)
+          constructor <;> nlinarith [h0.1, h0.2, h1.1, h1.2, mul_nonneg ht0 (sub_nonneg.mpr h1.1), mul_nonneg ht0 (sub_nonneg.mpr h1.2),
+            mul_nonneg (sub_nonneg.mpr ht1) (sub_nonneg.mpr h0.1), mul_nonneg (sub_nonneg.mpr ht1) (sub_nonneg.mpr h0.2)]
+        · simp only [hx1, if_false]
+          exact ih (fun p hp => h p (by simp [hp]))
+
+/-- **a sampled unit-level error never leaves the range of its stratum's fitted quantiles**: `ppf(p) = np.interp(p, taus, betas, min betas,
+    max betas)` lies between the smallest and the largest fitted quantile for *every* argument `p` (also outside `[0, 1]`), every knot list -/
+theorem ppf_within_fitted_range (p lo hi : ℚ) (pts : List (ℚ × ℚ)) (hne : pts ≠ []) (h : ∀ q ∈ pts, lo ≤ q.2 ∧ q.2 ≤ hi) :
+    lo ≤ interp p lo hi pts ∧ interp p lo hi pts ≤ hi := by
+  cases pts with
+  | nil => exact absurd rfl hne
+  | cons q t =>
+    obtain ⟨x0, f0⟩ := q
+    have hq := h (x0, f0) (by simp)
+    have hlh : lo ≤ hi := le_trans hq.1 hq.2
+    unfold interp
+    by_cases hx : p < x0
+    · simp [hx, hlh]
+    · simp only [hx, if_false]
+      exact interpAux_mem p hi lo hi _ h ⟨hlh, le_rfl⟩
+
+/-- at a knot the interpolation returns the knot's value (strictly increasing knots) -/
+theorem interp_first_knot (left right x0 f0 : ℚ) (t : List (ℚ × ℚ)) : interp x0 left right ((x0, f0) :: t) = f0 := by
+  simp [interp, interpAux]
+
+/-- how the stratum distributions call `np.interp` (shape anchor, regenerated) -/
+theorem bridge_interp_calls :
+    Gen.C06.strata_interp = ["np.interp(p, taus, betas, lb, ub)", "np.interp(x, betas, taus, right=1)",
+      "ppf_creator(betas_stratum, self.taus, np.min(betas_stratum), np.max(betas_stratum))", "cdf_creator(betas_stratum, self.taus)"] := rfl
+
+example : interp (1/4) 0 9 [(0, 1), (1/2, 3), (1, 2)] = 2 ∧ interp (3/4) 0 9 [(0, 1), (1/2, 3), (1, 2)] = 5/2 ∧
+    interp (-1) 0 9 [(0, 1), (1/2, 3), (1, 2)] = 0 ∧ interp 2 0 9 [(0, 1), (1/2, 3), (1, 2)] = 9 ∧
+    interp 1 0 9 [(0, 1), (1/2, 3), (1, 2)] = 2 := by decide +kernel
+
 example : epsilon [(0, 1), (1, 5), (0, 3), (2, 7), (2, 1), (2, -2)] 0 = 2 ∧ epsilon [(0, 1), (1, 5), (0, 3)] 1 = 0 ∧
     delta [(0, 1), (1, 5), (0, 3), (2, 7), (2, 1), (2, -2)] = [-1, 5, 1, 5, -1, -4] := by decide +kernel
 
